@@ -33,7 +33,6 @@ SPECS = [
  ("C11", "latest-per-task-ascending", S+"execution/version_index_queries.py", "  WHERE\n    task_identifier = ?\n  ORDER BY timestamp DESC\n  LIMIT 1", "  WHERE\n    task_identifier = ?\n  ORDER BY timestamp ASC\n  LIMIT 1"),
  ("C11", "latest-join-on-timestamp-only", S+"execution/version_index_queries.py", "    c.task_identifier = l.task_identifier\n    AND c.timestamp = l.timestamp", "    c.timestamp = l.timestamp"),
  ("C11", "closure-includes-all-tasks", S+"cli/archive.py", "        if not task.archivable:\n            return\n", ""),
- ("C12", "rollback-removed", S+"cli/restore.py", "    except:\n        ctx.version_index.rollback_changes()\n        raise", "    except:\n        raise"),
  ("C12", "insert-or-replace", S+"execution/version_index_queries.py", "  INSERT INTO version_index (\n    task_identifier,", "  INSERT OR REPLACE INTO version_index (\n    task_identifier,"),
  ("C12", "dirs-exist-ok", S+"cli/restore.py", "            shutil.copytree(src_task_path, dest_task_path)", "            shutil.copytree(src_task_path, dest_task_path, dirs_exist_ok=True)"),
  ("C12", "commit-before-copy", S+"cli/restore.py", "        # Copy over all archived task outputs\n", "        ctx.version_index.commit_changes()\n        # Copy over all archived task outputs\n"),
